@@ -1,7 +1,7 @@
 (* Entry points of the executable model, by name.  Used both by the extracted
    OCaml driver and by vm_compute in generated cases files. *)
 From Coq Require Import ZArith QArith List String Bool.
-From SKC Require Import Model.Val Base.QBool Base.QList Base.QRank Model.Dominance Model.Agg Model.Electre Model.Result Model.Select Model.Transform Model.Weights.
+From SKC Require Import Model.Val Base.QBool Base.QList Base.QRank Model.Dominance Model.Agg Model.Electre Model.Result Model.Select Model.Transform Model.Weights Model.Filters.
 Import ListNotations.
 Local Open Scope string_scope.
 
@@ -186,6 +186,22 @@ Definition run_weight_cores (a : list bool * list (list Q) * bool * bool) : val 
   VL [eL eQ (map svar_r raw); eL eQ (map pvar_r M); eL eQ (map pvar_r R); eTable eQ (cov_matrix_r R);
       eTable eQ (map probs raw)].
 
+(* ---- C14: filters ------------------------------------------------------------------------ *)
+Definition dCond (v : val) : option cond :=
+  match v with
+  | VL [VZ 0; x] => option_map CGt (dQ x) | VL [VZ 1; x] => option_map CGe (dQ x)
+  | VL [VZ 2; x] => option_map CLt (dQ x) | VL [VZ 3; x] => option_map CLe (dQ x)
+  | VL [VZ 4; x] => option_map CEq (dQ x) | VL [VZ 5; x] => option_map CNe (dQ x)
+  | VL [VZ 6; s] => option_map CIn (dL dQ s) | VL [VZ 7; s] => option_map CNotIn (dL dQ s)
+  | VL [VZ 8; VZ k] => Some (CFn k)
+  | _ => None
+  end%Z.
+Definition run_filter (a : list Z * list (Z * cond) * bool * list (list Q)) : val :=
+  let '(crits, conds, ignore, rows) := a in
+  eRes (eL eB) (filter_impl crits conds ignore rows).
+Definition run_nondominated (a : bool * list bool * list (list Q)) : val :=
+  let '(strict, objs, rows) := a in eL eB (nondominated strict objs rows).
+
 Definition dispatch (fn : string) (arg : val) : val :=
   if fn =? "dominance" then with_arg (dP2 (dL dB) dMatrix) run_dominance arg
   else if fn =? "rank" then with_arg (dP2 dB (dL dQ)) run_rank arg
@@ -200,6 +216,8 @@ Definition dispatch (fn : string) (arg : val) : val :=
   else if fn =? "frame" then with_arg dZ run_frame arg
   else if fn =? "frame_user" then with_arg (dL dZ) run_frame_user arg
   else if fn =? "weight_cores" then with_arg (dP4 (dL dB) dMatrix dB dB) run_weight_cores arg
+  else if fn =? "filter" then with_arg (dP4 (dL dZ) (dL (dP2 dZ dCond)) dB dMatrix) run_filter arg
+  else if fn =? "nondominated" then with_arg (dP3 dB (dL dB) dMatrix) run_nondominated arg
   else if fn =? "wsm" then with_arg dDM run_wsm arg
   else if fn =? "ratio" then with_arg dDM run_ratio arg
   else if fn =? "refpoint" then with_arg dDM run_refpoint arg
